@@ -73,7 +73,12 @@ def _gen_hist(rng, code):
         for _ in range(nh):
             if code in (1, 4):
                 nom = [round(rng.uniform(0.5, 20), 3) for _ in range(nb)]
-                if rng.random() < 0.25:
+                if rng.random() < 0.15:
+                    # 'all positive down/nominal/up values': very asymmetric variations (the code-4 polynomial then
+                    # dips below zero inside the core, which the formula and the scalar implementation handle)
+                    hh.append([[round(v * rng.choice([1.0, rng.uniform(0.01, 0.3), rng.uniform(5, 60)]), 4) for v in nom], nom,
+                               [round(v * rng.choice([rng.uniform(5, 80), rng.uniform(5, 80), rng.uniform(0.01, 0.3)]), 4) for v in nom]])
+                elif rng.random() < 0.25:
                     # variations on the 'wrong' side of the nominal are legal inputs too
                     hh.append([[round(v * rng.uniform(0.5, 1.6), 4) for v in nom], nom,
                                [round(v * rng.uniform(0.6, 2.0), 4) for v in nom]])
